@@ -2867,7 +2867,9 @@ func RegexpRemoveExtCommunities(path *Path, exps []*regexp.Regexp, subtypes []bg
 	for _, comm := range comms {
 		match := false
 		// match only with transitive community. see RFC7153
+		// (a non-transitive one is never matched, so it stays)
 		if !isTransitiveType(comm) {
+			newComms = append(newComms, comm)
 			continue
 		}
 		for idx, exp := range exps {
